@@ -879,8 +879,16 @@ fn partition(
     // The priorities at the beginning of the argument list have precedence over
     // the priorities given at the end of the argument list, therefore we're applying
     // them in reversed order.
+    // `top` and `bottom` rank the files by their position in the report, which orders them
+    // completely: a priority given after one of them can never decide anything and must not
+    // be applied, or it would reorder the files before `top` reverses them.
+    let decisive = config
+        .priority
+        .iter()
+        .position(|p| matches!(p, Priority::Top | Priority::Bottom))
+        .map_or(config.priority.len(), |i| i + 1);
     let mut sort_errors = Vec::new();
-    for priority in config.priority.iter().rev() {
+    for priority in config.priority[..decisive].iter().rev() {
         sort_errors.extend(sort_by_priority(&mut file_sub_groups, priority));
     }
 
